@@ -43,7 +43,7 @@ Section Ham.
      lc [2; 2]  [0;  0; 0] D;
      lc [2]     [0;  0]    (kopp R h)].
   Definition xxz_opmap (half : R) : list (Z * mx) :=
-    [(-1, m22 0r 0r 1r 0r); (0, idmx R 2); (1, m22 0r 1r 0r 0r); (2, m22 half 0r 0r (kopp R half))].
+    [(-1, m22 0r 0r 1r 0r); (0, idmx 2); (1, m22 0r 1r 0r 0r); (2, m22 half 0r 0r (kopp R half))].
   Definition xxz_spec (half J D h : R) : hamspec := mkspec [1; -1] (xxz_lop half J D h) (xxz_opmap half) 0.
 
   (* ---- heisenberg_xxz_spin1_mpo ---- *)
@@ -53,7 +53,7 @@ Section Ham.
      lc [2; 2]  [0;  0; 0] D;
      lc [2]     [0;  0]    (kopp R h)].
   Definition xxz1_opmap (sq2 : R) : list (Z * mx) :=
-    [(-1, m33 0r 0r 0r  sq2 0r 0r  0r sq2 0r); (0, idmx R 3);
+    [(-1, m33 0r 0r 0r  sq2 0r 0r  0r sq2 0r); (0, idmx 3);
      (1, m33 0r sq2 0r  0r 0r sq2  0r 0r 0r); (2, m33 1r 0r 0r  0r 0r 0r  0r 0r (kopp R 1r))].
   Definition xxz1_spec (half sq2 J D h : R) : hamspec := mkspec [1; 0; -1] (xxz1_lop half J D h) (xxz1_opmap sq2) 0.
 
@@ -64,11 +64,11 @@ Section Ham.
      lc [2]     [0;  0]    (kopp R mu);
      lc [3]     [0;  0]    U].
   Definition bose_opmap (d : nat) (sq : nat -> R) : list (Z * mx) :=
-    [(-1, tab R d d (fun i j => if Nat.eqb (S i) j then sq j else 0r));            (* b_ann = diag(sqrt(1..d-1), +1) *)
-     (0, idmx R d);
-     (1, tab R d d (fun i j => if Nat.eqb i (S j) then sq i else 0r));             (* b_dag = diag(sqrt(1..d-1), -1) *)
-     (2, tab R d d (fun i j => if Nat.eqb i j then rnat i else 0r));               (* numop *)
-     (3, tab R d d (fun i j => if Nat.eqb i j then rnat (i * (i - 1) / 2) else 0r))]. (* numop (numop - 1) / 2 *)
+    [(-1, tab d d (fun i j => if Nat.eqb (S i) j then sq j else 0r));            (* b_ann = diag(sqrt(1..d-1), +1) *)
+     (0, idmx d);
+     (1, tab d d (fun i j => if Nat.eqb i (S j) then sq i else 0r));             (* b_dag = diag(sqrt(1..d-1), -1) *)
+     (2, tab d d (fun i j => if Nat.eqb i j then rnat i else 0r));               (* numop *)
+     (3, tab d d (fun i j => if Nat.eqb i j then rnat (i * (i - 1) / 2) else 0r))]. (* numop (numop - 1) / 2 *)
   Definition bose_spec (d : nat) (sq : nat -> R) (t U mu : R) : hamspec :=
     mkspec (map Z.of_nat (seq 0 d)) (bose_lop t U mu) (bose_opmap d sq) 0.
 
@@ -80,19 +80,19 @@ Section Ham.
      lc [6; 7] [0; enc (-1) 1; 0]    (kopp R t);
      lc [9]    [0; 0]                (kopp R mu);
      lc [10]   [0; 0]                U].
-  Definition f_id2 : mx := idmx R 2.
+  Definition f_id2 : mx := idmx 2.
   Definition f_adag : mx := m22 0r 0r 1r 0r.
   Definition f_aann : mx := m22 0r 1r 0r 0r.
   Definition f_num : mx := m22 0r 0r 0r 1r.
   Definition f_Z : mx := m22 1r 0r 0r (kopp R 1r).
   Definition fermi_opmap (half : R) : list (Z * mx) :=
     let q := kmul R half half in
-    [(0, idmx R 4);
-     (1, kronmx R f_adag f_id2); (2, kronmx R f_aann f_id2);
-     (3, kronmx R f_adag f_Z);   (4, kronmx R f_aann f_Z);
-     (5, kronmx R f_id2 f_adag); (6, kronmx R f_id2 f_aann);
-     (7, kronmx R f_Z f_adag);   (8, kronmx R f_Z f_aann);
-     (9, addmx R (kronmx R f_num f_id2) (kronmx R f_id2 f_num));
+    [(0, idmx 4);
+     (1, kronmx f_adag f_id2); (2, kronmx f_aann f_id2);
+     (3, kronmx f_adag f_Z);   (4, kronmx f_aann f_Z);
+     (5, kronmx f_id2 f_adag); (6, kronmx f_id2 f_aann);
+     (7, kronmx f_Z f_adag);   (8, kronmx f_Z f_aann);
+     (9, addmx (kronmx f_num f_id2) (kronmx f_id2 f_num));
      (10, diag4 q (kopp R q) (kopp R q) q)].
   Definition fermi_qd : list Z := [enc 0 0; enc 1 (-1); enc 1 1; enc 2 0].
   Definition fermi_spec (half t U mu : R) : hamspec := mkspec fermi_qd (fermi_lop t U mu) (fermi_opmap half) 0.
@@ -136,7 +136,7 @@ Section Ham.
     let L := length coeff in
     mkgraph (map (lf_node L create) (seq 0 (2 * L))) (map (lf_edge L create coeff) (seq 0 (3 * L - 2))) 0 (2 * Z.of_nat L - 1).
   Definition linferm_opmap : list (Z * mx) :=
-    [(-1, m22 0r 1r 0r 0r); (0, idmx R 2); (1, m22 0r 0r 1r 0r); (2, m22 1r 0r 0r (kopp R 1r))].
+    [(-1, m22 0r 1r 0r 0r); (0, idmx 2); (1, m22 0r 0r 1r 0r); (2, m22 1r 0r 0r (kopp R 1r))].
 
   (* ---- bond dimensions of the MPO made from a graph: the layer widths found by MPO.from_opgraph ---- *)
   Definition bond_dims (g : graph) : option (list nat) :=
@@ -147,7 +147,7 @@ Section Ham.
     zlist_eqb (c_oids a) (c_oids b) && zlist_eqb (c_qnums a) (c_qnums b) && keqb R (c_coeff a) (c_coeff b) &&
     Nat.eqb (c_istart a) (c_istart b).
   Definition opmap_eqb (a b : list (Z * mx)) : bool :=
-    list_eqb (fun p q => (fst p =? fst q) && wfb R (snd q) && mxeqb R (snd p) (snd q)) a b.
+    list_eqb (fun p q => (fst p =? fst q) && wfb (snd q) && mxeqb (snd p) (snd q)) a b.
   Definition nat_list_eqb (a b : list nat) : bool := list_eqb Nat.eqb a b.
   (* the arguments captured at _local_opchains_to_mpo equal the model's tables *)
   Definition spec_eqb (model impl : hamspec) : bool :=
@@ -159,7 +159,7 @@ Section Ham.
              (tbl : list ((nat * nat * list (nat * nat)) * (list nat * list nat)))
              (fuel : nat) (expected : res graph) (dims : list nat) : bool :=
     spec_eqb model impl &&
-    check_chains R tbl (spec_chains model L) L (h_idn model) fuel expected &&
+    check_chains tbl (spec_chains model L) L (h_idn model) fuel expected &&
     match expected with
     | Ok g => match bond_dims g with Some ws => nat_list_eqb ws dims | None => false end
     | Err _ => true
@@ -178,7 +178,7 @@ Arguments xxz1_lop {R} _ _ _ _. Arguments xxz1_opmap {R} _. Arguments xxz1_spec 
 Arguments bose_lop {R} _ _ _. Arguments bose_opmap {R} _ _. Arguments bose_spec {R} _ _ _ _ _.
 Arguments fermi_lop {R} _ _ _. Arguments fermi_opmap {R} _. Arguments fermi_spec {R} _ _ _ _.
 Arguments spec_chains {R} _ _. Arguments spec_graph {R} _ _ _.
-Arguments lf_edges {R} _ _. Arguments linferm_build {R} _ _. Arguments lf_node _ _ _. Arguments lf_edge {R} _ _ _ _.
+Arguments lf_edges {R} _ _. Arguments linferm_build {R} _ _. Arguments lf_edge {R} _ _ _ _.
 Arguments linferm_graph {R} _ _. Arguments linferm_opmap {R}.
 Arguments bond_dims {R} _. Arguments chain_eqb {R} _ _. Arguments opmap_eqb {R} _ _. Arguments spec_eqb {R} _ _.
 Arguments check_ham {R} _ _ _ _ _ _ _. Arguments check_linferm {R} _ _ _ _ _.
